@@ -255,7 +255,7 @@ pub fn gen_dedication(ctx: &mut Ctx) -> Option<FCase> {
             ("parent", &["parent", "parent(pa{d}, pb{d})", "parent(pa{d}, [parent(pc{d})] pn{d})", "parent(pa{d}, [parent(pc{d})] pn{d}: Pn)"]),
             ("as_type", &["as_type(i64)", "as_type(w{d}, i64)"]),
             ("where_clause", &["where_clause(P{d}: Clone)"]),
-            ("ghosts", &["ghosts(g{d}: { {n} })", "ghosts_owned(g{d}: { {n} })"]),
+            ("ghosts", &["ghosts(g{d}: { {n} })", "ghosts_owned(g{d}: { {n} })", "ghosts(p@h{d}: { {n} })"]),
             ("child_parents", &["child_parents(p: P{d}, p.q: Q{d})"]),
         ];
         let mut n = 0;
@@ -276,6 +276,9 @@ pub fn gen_dedication(ctx: &mut Ctx) -> Option<FCase> {
                     ins.parens = false;
                 }
                 tags.push(format!("{}:{}={}", fam, ded.unwrap_or("default"), c));
+                if txt.contains("p@") {
+                    uses_child = true;
+                }
                 match *fam {
                     "where_clause" | "ghosts" | "child_parents" => type_attrs.push(ins),
                     _ => {
